@@ -11,6 +11,7 @@ theorems only — the safety theorems hold for arbitrary clients.
 -/
 import ExecnetVerif.Proofs.PoolProgress
 import ExecnetVerif.Proofs.PoolMeasure
+import ExecnetVerif.Proofs.SpawnFailLemmas
 namespace ExecnetVerif
 open Pool
 
@@ -320,5 +321,65 @@ example : ∃ s, Reachable { primary := true, mto := true, gated := true, old :=
       [(.user 0, .spawnAcq 0), (.user 0, .spawnCheck), (.user 0, .spawnRelease), (.user 0, .spawnReturn),
        (.primary, .pWait), (.primary, .pRead), (.primary, .tBegin 0), (.primary, .tEnd 0),
        (.user 0, .spawnAcq 1), (.user 0, .spawnCheck)] rfl, rfl, rfl, rfl⟩
+
+/-! ### a thread that cannot be started (`Model/SpawnFail.lean`) -/
+
+/-- how the current source treats a failing `execmodel.start` inside `spawn` (the handler drops the reply from `_running`
+and re-raises) and the order registration → primary hand-over → thread start, read off `WorkerPool.spawn` by the translator -/
+theorem C09_start_failure_pinned :
+    SpawnFail.codeCfg = SpawnFail.good ∧
+    Generated.spawnOrder = ["self._running.add", "self._try_send_to_primary_thread", "self.execmodel.start"] := by
+  decide
+
+/-- **C09 (waitall after a refused start).** Whatever mixture of successful spawns, spawns whose thread could not be
+started, finished calls and shutdowns came before: `_running` counts accepted, unfinished calls only — so once every accepted
+call has come to its end `waitall()` is true (and `terminate()` with it). -/
+theorem C09_refused_start_not_counted (ops : List SpawnFail.Op) :
+    (∀ r, r ∈ (SpawnFail.run SpawnFail.codeCfg SpawnFail.init ops).2.running →
+        r ∈ (SpawnFail.run SpawnFail.codeCfg SpawnFail.init ops).2.accepted ∧
+        r ∉ (SpawnFail.run SpawnFail.codeCfg SpawnFail.init ops).2.finished) ∧
+    ((∀ r, r ∈ (SpawnFail.run SpawnFail.codeCfg SpawnFail.init ops).2.accepted →
+        r ∈ (SpawnFail.run SpawnFail.codeCfg SpawnFail.init ops).2.finished) →
+      SpawnFail.waitallTrue (SpawnFail.run SpawnFail.codeCfg SpawnFail.init ops).2 = true) := by
+  rw [C09_start_failure_pinned.1]
+  have h := SpawnFail.inv_run SpawnFail.init SpawnFail.inv_init ops
+  generalize (SpawnFail.run SpawnFail.good SpawnFail.init ops).2 = p at *
+  refine ⟨fun r hr => ⟨h.counted r hr, h.unfinished r hr⟩, ?_⟩
+  intro hall
+  cases hr : p.running with
+  | nil => simp [SpawnFail.waitallTrue, hr]
+  | cons r rest =>
+    have hm : r ∈ p.running := by simp [hr]
+    exact absurd (hall r (h.counted r hm)) (h.unfinished r hm)
+
+/-- a refused start changes nothing but the reply counter: the pool is as it was -/
+theorem C09_refused_start_inert (p : SpawnFail.P) (hs : p.shut = false) :
+    (SpawnFail.step SpawnFail.codeCfg p (.spawn false)).1 = .startError ∧
+    (SpawnFail.step SpawnFail.codeCfg p (.spawn false)).2 = { p with next := p.next + 1 } := by
+  rw [C09_start_failure_pinned.1]
+  simp [SpawnFail.step, SpawnFail.good, hs]
+
+/-- the pinned tree (no handler around `start`): after ONE spawn whose thread could not be started — the call was refused,
+nothing is accepted — `waitall()` is false and stays false whatever happens afterwards (defect D34) -/
+theorem C09_start_failure_counterexample (ops : List SpawnFail.Op) :
+    (SpawnFail.step SpawnFail.pinned SpawnFail.init (.spawn false)).1 = .startError ∧
+    SpawnFail.waitallTrue (SpawnFail.run SpawnFail.pinned SpawnFail.init (.spawn false :: ops)).2 = false := by
+  refine ⟨by decide, ?_⟩
+  have h := SpawnFail.ghost_stays (SpawnFail.step SpawnFail.pinned SpawnFail.init (.spawn false)).2 0
+    (by decide) (by decide) (by decide) ops
+  simp only [SpawnFail.run]
+  generalize (SpawnFail.run SpawnFail.pinned (SpawnFail.step SpawnFail.pinned SpawnFail.init (.spawn false)).2 ops).2 = q at *
+  cases hq : q.running with
+  | nil => rw [hq] at h; exact absurd h (by simp)
+  | cons a l => simp [SpawnFail.waitallTrue, hq]
+
+/-- non-vacuity: a history with a refused start between two accepted calls, both finished — `waitall()` is true with the
+guard and false without it -/
+example :
+    let ops := [SpawnFail.Op.spawn true, .spawn false, .spawn true, .finish 0, .finish 2]
+    (SpawnFail.run SpawnFail.good SpawnFail.init ops).1 = [.reply 0, .startError, .reply 2, .done, .done] ∧
+    SpawnFail.waitallTrue (SpawnFail.run SpawnFail.good SpawnFail.init ops).2 = true ∧
+    SpawnFail.waitallTrue (SpawnFail.run SpawnFail.pinned SpawnFail.init ops).2 = false := by
+  decide
 
 end ExecnetVerif
